@@ -1727,12 +1727,21 @@ func (c *chainWatcher) dispatchContractBreach(spendEvent *chainntnfs.SpendDetail
 
 	log.Debugf("Punishment breach retribution created: %v",
 		lnutils.NewLogClosure(func() string {
-			retribution.KeyRing.LocalHtlcKey = nil
-			retribution.KeyRing.RemoteHtlcKey = nil
-			retribution.KeyRing.ToLocalKey = nil
-			retribution.KeyRing.ToRemoteKey = nil
-			retribution.KeyRing.RevocationKey = nil
-			return spew.Sdump(retribution)
+			// We blank the keys on a copy, the retribution itself
+			// is handed to the breach arbiter below and must not
+			// depend on the log level.
+			retCopy := *retribution
+			if retribution.KeyRing != nil {
+				keyRing := *retribution.KeyRing
+				keyRing.LocalHtlcKey = nil
+				keyRing.RemoteHtlcKey = nil
+				keyRing.ToLocalKey = nil
+				keyRing.ToRemoteKey = nil
+				keyRing.RevocationKey = nil
+				retCopy.KeyRing = &keyRing
+			}
+
+			return spew.Sdump(&retCopy)
 		}))
 
 	settledBalance := chainSet.remoteCommit.LocalBalance.ToSatoshis()
